@@ -189,6 +189,17 @@ def judge_state(ctx, h, steps, rng):
                                  if not isinstance(gl[k], tuple) and not isinstance(ga[k], tuple) else gl[k] == ga[k])]
     ctx.check(not bad, "alias-spelling", "'log-normal' gives different statistics than 'lognormal'", accessors=bad[:6],
               lognormal=[gl[k] for k in bad[:2]], alias=[ga[k] for k in bad[:2]])
+    # (6) other capitalisations: a spelling that an accessor accepts names the same distribution (a refusal is fine)
+    k = int(np.sum(vw)) % 3
+    for canon, spelled, base in (("lognormal", ["Lognormal", "LOGNORMAL", "Log-Normal"][k], gl),
+                                 ("normal", ["Normal", "NORMAL", "normal"][k], None)):
+        if base is None:
+            base = accessors(h, canon, ns)
+        gs = accessors(h, spelled, ns)
+        bad = [a for a in base if not isinstance(gs[a], tuple) and not isinstance(base[a], tuple)
+               and not biteq(np.asarray(base[a], dtype=float), np.asarray(gs[a], dtype=float))]
+        ctx.check(not bad, "alias-spelling", f"{spelled!r} is accepted but gives different statistics than {canon!r}",
+                  accessors=bad[:6], canonical=[base[a] for a in bad[:2]], spelled=[gs[a] for a in bad[:2]], spelling=spelled)
     return bool((~vw).any() or (~has_peak).any())
 
 
